@@ -229,6 +229,27 @@ func (m *impl) exec1(line string) string {
 		}
 		kind := map[rlp.Kind]string{rlp.Byte: "byte", rlp.String: "string", rlp.List: "list"}[k]
 		return kind + " " + hx.Hex(content) + " " + hx.Hex(rest) + " " + cnt
+	case w[0] == "opendisk" && len(w) == 2:
+		// a blob (usually a damaged node encoding) is put on disk under its hash and opened as a
+		// trie root: node.go decodeNode / decodeShort / decodeFull / decodeRef incl. every error branch
+		x, ok := arg(1)
+		if !ok {
+			return "bad-op"
+		}
+		h := common.BytesToHash(keccak(x))
+		disk, _ := db.NewMemDatabase()
+		disk.Put(h[:], x)
+		res := hx.Guard(func() string {
+			t2, err := trie.NewTrie(h, trie.NewDatabase(disk))
+			if err != nil {
+				return errClass(err)
+			}
+			return shapeOf(t2)
+		})
+		if strings.HasPrefix(res, "PANIC") {
+			return "decode-panic"
+		}
+		return res
 	case w[0] == "dbstate" && len(w) == 1:
 		// the two layers of the NodeDatabase: hashes in the memory cache, keys on disk
 		var mem [][]byte
@@ -378,6 +399,7 @@ func main() {
 	defer out.close()
 	thorough := a["tier"] == "thorough"
 	m := newImpl()
+	dr := hx.NewRng(hx.SeedFromEnv() ^ 0xd15cb10b)
 	do := func(line string) string {
 		// ops that refer to the last reported root are made self-contained before they are recorded
 		lr := m.lastRoot
@@ -388,6 +410,13 @@ func main() {
 			line = "upd " + strings.TrimPrefix(line, "updroot ") + " " + lr
 		} else if line == "noderoot" {
 			line = "node " + lr
+		} else if line == "opendiskmut" {
+			// the blob of the last reported root, damaged
+			var blob []byte
+			if hb, err := hx.UnHex(lr); err == nil {
+				blob, _ = m.triedb.Node(common.BytesToHash(hb))
+			}
+			line = "opendisk " + hx.Hex(damage(dr, blob))
 		}
 		res := hx.Guard(func() string { return m.exec(line) })
 		out.emit(line, res)
@@ -555,6 +584,9 @@ func main() {
 		}
 		do("dbstate")
 		do("noderoot")
+		for i := 0; i < 12; i++ {
+			do("opendiskmut")
+		}
 		for i := 0; i < g.nsnaps; i++ {
 			do("shash " + strconv.Itoa(i))
 			do("sshape " + strconv.Itoa(i))
